@@ -53,6 +53,7 @@ def explore(chk):
     b = core.Batch()
     for i in range(N):
         ncap = rng.randint(1, 6)
+        tight = (i % 4 == 3)
         caps_text = [[gen_line(rng) for _ in range(rng.randint(1, 3))] for _ in range(ncap)]
         # lay out with the real library step to know the transmission time each caption needs
         w = SCCWriter()
@@ -72,13 +73,17 @@ def explore(chk):
             times.append((start, end))
             if k + 1 < ncap:
                 t = end + (need[k + 1] + 4 + rng.choice([0, 0, 1, 5, 60, 600])) * FRAME
+                if tight:
+                    # pauses within three frames of the transmission time (just below "far enough apart"): the writer drops the
+                    # previous erase command there and must still keep its timecodes in order
+                    t = end + (need[k + 1] + rng.choice([-3, -2, -1, 0, 1, 2, 3])) * FRAME
         abstract = {"en-US": [(s, e, capio.nodes_from_lines(ls)) for (s, e), ls in zip(times, caps_text)]}
         op = b.add("sccw.write", "|".join("%s;%s;%s" % ("^".join(core.enc(l) for l in ll) if ll else "~", capio.fr(s), capio.fr(e))
                                            for ll, (s, e) in zip(laid, times)))
-        jobs.append((abstract, caps_text, laid, times, op))
+        jobs.append((abstract, caps_text, laid, times, op, tight))
     out = b.run() if chk.driver_ok else None
     hexword = re.compile(r"^[0-9a-f]{4}$")
-    for (abstract, caps_text, laid, times, op) in jobs:
+    for (abstract, caps_text, laid, times, op, tight) in jobs:
         cs = capio.build_set(abstract)
         doc = pycaption.SCCWriter().write(cs)
         case = {"captions": [{"start": s, "end": e, "lines": ls} for (s, e), ls in zip(times, caps_text)], "output": doc[:3000]}
@@ -164,6 +169,14 @@ def explore(chk):
                     ok_struct = False; why = "rows are not the text broken only at spaces (a word of at most 32 characters was split)"; break
         elif ok_struct:
             ok_struct = False; why = "number of transmitted captions differs from the number of input captions"
+        chk.count("tight_spacing" if tight else "feasible_spacing")
+        if tight:
+            # outside "spaced far enough apart": only the structural demands (incl. non-decreasing timecodes) apply
+            if not ok_struct and why and ("timecodes decrease" in why or "parity" in why or "hex" in why or "timecode" in why or "PAC addresses" in why):
+                chk.property_failure(dict(case, why=why, tight_spacing=True), "SCC output is not structurally valid: " + re.sub(r"[0-9a-f]{2,4}|%r|\d+", "*", why))
+            if out is not None and core.dec(out[op]) != doc:
+                chk.correspondence_failure(dict(case, model=core.dec(out[op])[:3000]), "SCC writer: implementation and model differ")
+            continue
         if not ok_struct:
             chk.property_failure(dict(case, why=why), "SCC output is not structurally valid: " + re.sub(r"[0-9a-f]{2,4}|%r|\d+", "*", why or ""))
         else:
